@@ -39,6 +39,14 @@ try:
     for f in glob.glob(os.path.join(wt, pkgdir, "zz_seed_*")):
         os.remove(f)
     r = subprocess.run(["/verif/tools/baseline.py", wt], capture_output=True, text=True)
+    if r.returncode != 0:
+        # the repository's suite has timing-sensitive tests that flake on a loaded machine: re-run the failing packages alone
+        pkgs = sorted({"./" + l.split("UNEXPECTED FAIL: go.minekube.com/gate/")[1].split("::")[0] for l in r.stdout.splitlines() if l.startswith("UNEXPECTED FAIL: go.minekube.com/gate/")})
+        if pkgs:
+            r2 = subprocess.run(["/verif/tools/baseline.py", wt] + pkgs, capture_output=True, text=True)
+            ran.append("first full suite run had unexpected failures in %s; re-run of those packages alone: rc=%d" % (pkgs, r2.returncode))
+            if r2.returncode == 0:
+                r = r2
     ran.append("repository suite with patch: rc=%d %s" % (r.returncode, r.stdout.strip().splitlines()[0] if r.stdout.strip() else ""))
     suite_ok = r.returncode == 0
     ok = ok and rc0 == 0 and rc1 != 0 and suite_ok
